@@ -16,7 +16,8 @@ import numpy as np
 
 EVENTS: list[tuple] = []      # (mech, msg, witness)
 COUNT: dict[str, int] = {}    # how often each monitor was evaluated
-STATE = {'idcol': None, 'installed': False, 'expected_ids': None}
+STATE = {'idcol': None, 'installed': False, 'expected_ids': None, 'history': False, 'phase': None, 'database': None}
+HIST: list[dict] = []         # history mode: ordered engine-boundary events of the case's BIOGEME objects
 
 
 def _c(k, n=1):
@@ -26,7 +27,11 @@ def _c(k, n=1):
 def reset(idcol=None):
     EVENTS.clear()
     COUNT.clear()
+    HIST.clear()
     STATE['idcol'] = idcol
+    STATE['history'] = False
+    STATE['phase'] = None
+    STATE['database'] = None
 
 
 def drain():
@@ -157,7 +162,7 @@ class _Spy:
     def __init__(self, real, kind):
         object.__setattr__(self, '_real', real)
         object.__setattr__(self, '_kind', kind)
-        object.__setattr__(self, '_h', {'data': None, 'map': None, 'draws': None, 'panel': None})
+        object.__setattr__(self, '_h', {'data': None, 'map': None, 'draws': None, 'panel': None, 'map_phase': None})
 
     def __getattr__(self, name):
         attr = getattr(self._real, name)
@@ -170,7 +175,10 @@ class _Spy:
                 h['data'] = a[0].copy()
             elif name == 'setDataMap':
                 h['map'] = a[0].copy()
+                h['map_phase'] = STATE['phase']
                 _c('handover_setDataMap')
+                if STATE['history'] and self._kind == 'biogeme':
+                    HIST.append({'call': 'setDataMap', 'phase': STATE['phase']})
             elif name == 'setDraws':
                 h['draws'] = None if a[0] is None else tuple(np.shape(a[0]))
             elif name == 'setPanel':
@@ -189,6 +197,17 @@ class _Spy:
         if name == 'simulateSeveralFormulas':
             data = a[3] if len(a) > 3 else k.get('d')
             ssize = a[5] if len(a) > 5 else k.get('sample_size')
+        if STATE['history'] and self._kind == 'biogeme' and h['map'] is not None and STATE['database'] is not None:
+            # history mode: is the map held by this engine object the database's current map?
+            cur = STATE['database'].individualMap
+            same = (cur is not None and list(cur.index) == list(h['map'].index)
+                    and np.array_equal(np.asarray(cur), np.asarray(h['map'])))
+            ev = {'call': name, 'phase': STATE['phase'], 'map_phase': h.get('map_phase'), 'current': bool(same)}
+            if name == 'simulateSeveralFormulas' and idcol is not None and data is not None:
+                ev['problems'] = [m for m, _ in check_map(h['map'], data, idcol, 'simulate')]
+            HIST.append(ev)
+            _c('history_engine_map_compared_' + name)
+            return
         if h['map'] is None or idcol is None or data is None or idcol not in getattr(data, 'columns', []):
             _c('engine_calculations_without_panel_map_rowwise_audits')
             return
